@@ -171,7 +171,7 @@ def _copy(v):
     return v
 
 
-def script(ex, shape):
+def script(ex, shape, canary=False):
     """shape: which filters are supplied (a frozenset of keys)"""
     I = Interp(ex, registry())
     I.db = GhostDB(I, 'db')
@@ -283,6 +283,12 @@ def script(ex, shape):
     member = I.ghost.get('c13.result')
     if member is None:
         raise Undecided('no final statement executed')
+    if canary:
+        # dropping the name filter from the specification must be refuted
+        ex.oblige('C13.canary.selected', ops.forall(
+            [k], member(k) == z3.And(*conj[:1] + conj[2:]),
+            patterns=[z3.Select(t.exists, k)]), 'canary')
+        return
     ex.oblige('C13.T.selected_iff_all_filters_hold', ops.forall(
         [k], member(k) == spec, patterns=[z3.Select(t.exists, k)]), 'T',
         {'filters': sorted(shape)})
@@ -320,6 +326,8 @@ def build(tier, seed):
         chk.script('filters{%s}' % ','.join(sorted(sh)),
                    (lambda s: lambda ex: script(ex, s))(sh),
                    ['placement/objects/resource_provider.py:_get_all_by_filters_from_db'])
+    chk.canary('canary.name_filter',
+               lambda ex: script(ex, frozenset(['name', 'member_of']), True))
     chk.replayer('C13.', replay_c13)
     chk.fallback('B4.c13.reference_evaluation', lambda: replay_c13(None),
                  '4 topologies (flat with reserved / ratios / units and usage, nested, sharing, mixed) x every single filter value, 60 (quick) or all pairs, and 30 / 200 random combinations of 3-5 filters (name, uuid, in_tree, member_of incl. in: / ! / !in: / unknown aggregates, required incl. in: / ! / unknown, resources incl. unknown class), compared with a reference evaluation over the raw rows',
